@@ -567,3 +567,142 @@ Definition c06_frame_check (fc : frame_case) : bool :=
 
 Definition c06_frame_show (fc : frame_case) :=
   let '(cols, calls) := fc in (map (fun cr => declared (fst cr)) cols, frame_desc (map fst cols)).
+
+(* ====================================================================================
+   Round 3: SESSIONS on one RelationSchema object.  The schema is a mutable object shared by
+   every DataFrame built on it; columns are re-declared in place, appended, popped, or have
+   their attributes assigned, between calls of .description through the same or another
+   DataFrame object.  The state below is explicit about the two things that outlive a call in
+   the implementation: the schema object's current column list, and the process-wide
+   single-item cache of DataFrame.column_names (orso/dataframe.py 400-405, orso/tools.py
+   single_item_cache: ONE entry, keyed by the DataFrame object) - the only memory
+   .description has besides the schema.
+   ==================================================================================== *)
+Record sess := mkS {
+  s_schema : schema;                       (* the schema object's columns, now *)
+  s_cache : option (nat * list str)        (* column_names cache: (frame object, the names it saw) *)
+}.
+
+Inductive op :=
+| ODescribe (f : nat)                (* frames[f].description; frame f is created on the schema at first use *)
+| OReplace (i : nat) (ci : col_in)   (* schema.columns[i mod len] = FlatColumn(name, type) *)
+| OAppend (ci : col_in)              (* schema.columns.append(FlatColumn(name, type)) *)
+| OPop (n : str)                     (* schema.pop_column(n): removes the first column named n *)
+| ORetype (i : nat) (ci : col_in).   (* in place on the column OBJECT schema.columns[i mod len]:
+                                        type, length, precision, scale, element_type = from_name(s) *)
+
+Inductive sobs :=
+| SDesc (now : schema) (r : result (list desc_obs))   (* the schema as read from the objects at this step; what .description did *)
+| SDecl (r : result descr)                            (* what FlatColumn(...) / from_name(...) did *)
+| SPop (found : bool).
+
+(* the loop of .description over a given list of names *)
+Fixpoint describe_names (sch : schema) (names : list str) : result (list desc_entry) :=
+  match names with
+  | [] => Ok []
+  | n :: r =>
+      match find_column n sch with
+      | None => Raise OtherExn                    (* None.type: AttributeError *)
+      | Some c => match describe_names sch r with Ok l => Ok (entry_of n c :: l) | Raise e => Raise e end
+      end
+  end.
+
+Definition with_back (l : list desc_entry) : list desc_obs := map (fun e => (e, from_name (e_code e))) l.
+
+Fixpoint update_nth {A : Type} (i : nat) (g : A -> A) (l : list A) : list A :=
+  match l, i with
+  | [], _ => []
+  | a :: r, O => g a :: r
+  | a :: r, S j => a :: update_nth j g r
+  end.
+
+Fixpoint remove_first (n : str) (sch : schema) : schema * bool :=
+  match sch with
+  | [] => ([], false)
+  | (m, c) :: r => if str_eqb m n then (r, true) else let '(r', b) := remove_first n r in ((m, c) :: r', b)
+  end.
+
+Definition idx_of (i : nat) (sch : schema) : nat := Nat.modulo i (List.length sch).
+
+Definition step (st : sess) (o : op) : sess * sobs :=
+  let sch := s_schema st in
+  match o with
+  | ODescribe f =>
+      let names := match s_cache st with
+                   | Some (g, ns) => if Nat.eqb g f then ns else map fst sch
+                   | None => map fst sch
+                   end in
+      (mkS sch (Some (f, names)),
+       SDesc sch (match describe_names sch names with Ok l => Ok (with_back l) | Raise e => Raise e end))
+  | OReplace i ci =>
+      match declared ci with
+      | Ok c => (mkS (update_nth (idx_of i sch) (fun _ => (ci_name ci, c)) sch) (s_cache st), SDecl (Ok c))
+      | Raise e => (st, SDecl (Raise e))
+      end
+  | OAppend ci =>
+      match declared ci with
+      | Ok c => (mkS (sch ++ [(ci_name ci, c)]) (s_cache st), SDecl (Ok c))
+      | Raise e => (st, SDecl (Raise e))
+      end
+  | OPop n => let '(sch', b) := remove_first n sch in (mkS sch' (s_cache st), SPop b)
+  | ORetype i ci =>
+      match ci_resolve ci with
+      | Ok d => (mkS (update_nth (idx_of i sch) (fun nc => (fst nc, d)) sch) (s_cache st), SDecl (Ok d))
+      | Raise e => (st, SDecl (Raise e))
+      end
+  end.
+
+Fixpoint run (st : sess) (ops : list op) : sess * list sobs :=
+  match ops with
+  | [] => (st, [])
+  | o :: r => let '(st1, ob) := step st o in let '(st2, obs) := run st1 r in (st2, ob :: obs)
+  end.
+
+Definition start (cols : list col_in) : sess := mkS (schema_of cols) None.
+
+(* ---- comparison ---- *)
+Definition schema_eqb (a b : schema) : bool :=
+  list_eqb (fun x y => str_eqb (fst x) (fst y) && descr_eqb (snd x) (snd y)) a b.
+Definition sobs_eqb (a b : sobs) : bool :=
+  match a, b with
+  | SDesc s1 (Ok l1), SDesc s2 (Ok l2) => schema_eqb s1 s2 && list_eqb dobs_eqb l1 l2
+  | SDesc s1 (Raise e1), SDesc s2 (Raise e2) => schema_eqb s1 s2 && exn_eqb e1 e2
+  | SDecl r1, SDecl r2 => result_eqb r1 r2
+  | SPop b1, SPop b2 => Bool.eqb b1 b2
+  | _, _ => false
+  end.
+
+(* a session case: the columns the schema is created with (each with what its constructor
+   did), the operations each with what was observed, and the schema read back at the end *)
+Definition session_case := (list (col_in * result descr) * list (op * sobs) * schema)%type.
+
+Definition c06_session_check (sc : session_case) : bool :=
+  let '(cols, steps, final) := sc in
+  let '(st, obs) := run (start (map fst cols)) (map fst steps) in
+  forallb (fun cr => result_eqb (declared (fst cr)) (snd cr)) cols
+  && list_eqb sobs_eqb obs (map snd steps)
+  && schema_eqb (s_schema st) final.
+
+Definition c06_session_show (sc : session_case) :=
+  let '(cols, steps, final) := sc in run (start (map fst cols)) (map fst steps).
+
+(* ---- vocabulary of the session theorems (Props/C06.v) ---- *)
+(* what .description must answer in state st: the schema as it is now, rendered column by column *)
+Definition current_view (st : sess) : sobs := SDesc (s_schema st) (Ok (with_back (description (s_schema st)))).
+
+(* the frame object is not the one the column_names cache remembers (a new frame, or any frame
+   other than the last one described) *)
+Definition not_cached (f : nat) (st : sess) : Prop :=
+  match s_cache st with Some (g, _) => g <> f | None => True end.
+
+(* the cache remembers this frame, with the names the schema has now *)
+Definition cached_current (f : nat) (st : sess) : Prop :=
+  s_cache st = Some (f, map fst (s_schema st)).
+
+(* an operation that re-declares a column in place under the name it already has *)
+Definition in_place (o : op) (st : sess) : Prop :=
+  match o with
+  | ORetype _ _ => True
+  | OReplace i ci => forall nc, nth_error (s_schema st) (idx_of i (s_schema st)) = Some nc -> fst nc = ci_name ci
+  | _ => False
+  end.
